@@ -489,15 +489,33 @@ def r4_merges(repo, report):
         merged = {}
         problems = []
 
+        loop_values = {}  # loop variable bound to an item of other.<attr> -> number of guards in force when the loop was entered
+
+        def value_guarded(a):
+            """a merge inside a loop over other's items that is skipped depending on the item itself (e.g. `if count:`)"""
+            for nm, depth in loop_values.items():
+                for g in cur_guards[depth:]:
+                    if any(isinstance(x, ast.Name) and x.id == nm for x in ast.walk(g)) and not any(isinstance(x, ast.Compare) and isinstance(x.ops[0], (ast.Is, ast.IsNot)) for x in ast.walk(g)):
+                        problems.append(f"the merge of self.{a} is skipped depending on the merged value ({src(g)[:40]}): a zero count is a count")
+                        return
+
+        cur_guards = []
+
         def visit(stmts, guards):
+            nonlocal cur_guards
             for s in stmts:
+                cur_guards = guards
                 if isinstance(s, ast.For):
                     srcs = _other_sources(s.iter, taint)
                     # other.m() returning a tuple of attributes: element-wise
                     names = [n.id for n in ast.walk(s.target) if isinstance(n, ast.Name)]
                     for nm in names:
                         taint[nm] = set(srcs)
+                        if srcs:
+                            loop_values[nm] = len(guards)
                     visit(s.body, guards)
+                    for nm in names:
+                        loop_values.pop(nm, None)
                 elif isinstance(s, ast.If):
                     visit(s.body, guards + [s.test])
                     visit(s.orelse, guards + [ast.UnaryOp(op=ast.Not(), operand=s.test)])
@@ -543,6 +561,7 @@ def r4_merges(repo, report):
                     if a is None:
                         continue
                     srcs = _other_sources(s.value, taint)
+                    value_guarded(a)
                     if not isinstance(s.op, ast.Add):
                         problems.append(f"self.{a} merged with operator {type(s.op).__name__}")
                     merged.setdefault(a, []).append(("add", srcs))
@@ -559,6 +578,10 @@ def r4_merges(repo, report):
                     visit(s.body, guards)
 
         visit(strip_docstring(fn.body), [])
+        for t in tallies:
+            checked_equal = any(isinstance(n_, ast.If) and any(isinstance(x, ast.Raise) for x in n_.body) and any(isinstance(c_, ast.Compare) and f"self.{t}" in src(c_) and f"other.{t}" in src(c_) for c_ in ast.walk(n_.test)) for n_ in ast.walk(fn))
+            if t in merged and all(kind == "adopt" for kind, _ in merged[t]) and not checked_equal:
+                problems.append(f"tally self.{t} is only adopted when empty and never added: the counts of every further worker are dropped")
         missing = [t for t in tallies if t not in merged]
         for t in missing:
             problems.append(f"tally self.{t} (updated at {sites[t][:2]}) is not merged")
